@@ -12,6 +12,7 @@ __all__ = [
 
 import collections
 import logging
+from collections.abc import Collection
 from typing import Protocol
 
 import onnx_ir as ir
@@ -109,6 +110,14 @@ class NameFixPass(ir.passes.InPlacePass):
         # Counters for generating unique names (using list to pass by reference)
         value_counter: collections.Counter[str] = collections.Counter()
         node_counter: collections.Counter[str] = collections.Counter()
+
+        # Names that are present anywhere in this graph (nested graphs included) are
+        # reserved: a generated name must not take the name of a value or node that has
+        # not been visited yet, otherwise that one loses its (unique) name later - or,
+        # for an initializer, the rename is rejected because the key is still taken.
+        reserved_value_names, reserved_node_names = _collect_existing_names(graph_like)
+        self._reserved_value_names = reserved_value_names
+        self._reserved_node_names = reserved_node_names
 
         def enter_graph(graph_like) -> None:
             """Callback for entering a subgraph."""
@@ -210,7 +219,9 @@ class NameFixPass(ir.passes.InPlacePass):
         )
 
         preferred_name = self._name_generator.generate_value_name(value)
-        value.name = _find_and_record_next_unique_name(preferred_name, used_names, counter)
+        value.name = _find_and_record_next_unique_name(
+            preferred_name, used_names, counter, self._reserved_value_names
+        )
         logger.debug("Assigned name %s to unnamed value", value.name)
         return True
 
@@ -223,7 +234,9 @@ class NameFixPass(ir.passes.InPlacePass):
         )
 
         preferred_name = self._name_generator.generate_node_name(node)
-        node.name = _find_and_record_next_unique_name(preferred_name, used_names, counter)
+        node.name = _find_and_record_next_unique_name(
+            preferred_name, used_names, counter, self._reserved_node_names
+        )
         logger.debug("Assigned name %s to unnamed node", node.name)
         return True
 
@@ -244,7 +257,9 @@ class NameFixPass(ir.passes.InPlacePass):
 
         # If name is already used, make it unique
         base_name = self._name_generator.generate_value_name(value)
-        value.name = _find_and_record_next_unique_name(base_name, used_names, counter)
+        value.name = _find_and_record_next_unique_name(
+            base_name, used_names, counter, self._reserved_value_names
+        )
         logger.debug("Renamed value from %s to %s for uniqueness", original_name, value.name)
         return True
 
@@ -263,17 +278,48 @@ class NameFixPass(ir.passes.InPlacePass):
 
         # If name is already used, make it unique
         base_name = self._name_generator.generate_node_name(node)
-        node.name = _find_and_record_next_unique_name(base_name, used_names, counter)
+        node.name = _find_and_record_next_unique_name(
+            base_name, used_names, counter, self._reserved_node_names
+        )
         logger.debug("Renamed node from %s to %s for uniqueness", original_name, node.name)
         return True
 
 
+def _collect_existing_names(graph_like: ir.Graph | ir.Function) -> tuple[set[str], set[str]]:
+    """Names of all values and nodes in the graph and its nested graphs."""
+    value_names: set[str] = set()
+    node_names: set[str] = set()
+
+    def visit_graph(graph) -> None:
+        for value in (*graph.inputs, *graph.outputs):
+            if value.name:
+                value_names.add(value.name)
+        if isinstance(graph, ir.Graph):
+            value_names.update(name for name in graph.initializers if name)
+
+    visit_graph(graph_like)
+    for node in ir.traversal.RecursiveGraphIterator(graph_like, enter_graph=visit_graph):
+        if node.name:
+            node_names.add(node.name)
+        for value in (*node.inputs, *node.outputs):
+            if value is not None and value.name:
+                value_names.add(value.name)
+    return value_names, node_names
+
+
 def _find_and_record_next_unique_name(
-    preferred_name: str, used_names: set[str], counter: collections.Counter[str]
+    preferred_name: str,
+    used_names: set[str],
+    counter: collections.Counter[str],
+    reserved_names: Collection[str] = (),
 ) -> str:
-    """Generate a unique name based on the preferred name and current counter."""
+    """Generate a unique name based on the preferred name and current counter.
+
+    A name in ``reserved_names`` belongs to something that has not been visited yet
+    and is never handed out.
+    """
     new_name = preferred_name
-    while new_name in used_names:
+    while new_name in used_names or new_name in reserved_names:
         counter[preferred_name] += 1
         new_name = f"{preferred_name}_{counter[preferred_name]}"
     used_names.add(new_name)
